@@ -28,6 +28,10 @@ use crate::reference_counter::ReferenceCounter;
 use crate::{TRACING, verifier};
 
 mod recover;
+#[cfg(blue_verif)]
+mod verif_hooks;
+#[cfg(blue_verif)]
+pub use verif_hooks::VerifCompaction;
 
 use recover::recover;
 
